@@ -39,7 +39,7 @@ var behaviours = []string{"base", "keep", "addx", "dropa", "rename", "error", "f
 var quickBehaviours = []string{"base", "keep", "addx", "dropa", "rename", "error", "fatal", "fatal-nomsg", "warn", "req1", "req4", "req5", "reqalt", "reqalt-labelvalue", "reqalt-labelkey", "reqalt-kind", "reqalt-apiversion", "reqalt-key"}
 
 // Observed states (prepared by real reconciles, then perturbed).
-var observedStates = []string{"none", "a", "ab", "a-deleted", "a-terminating", "a-foreign", "a-uncontrolled", "a-foreign-same-name"}
+var observedStates = []string{"none", "a", "ab", "a-deleted", "a-terminating", "a-foreign", "a-uncontrolled", "a-foreign-same-name", "a-client-side-managed"}
 
 func names(d map[string]*fnv1.Resource) []string {
 	var out []string
@@ -255,6 +255,14 @@ func prepare(state string) *simkube.Store {
 		})
 	case "a-uncontrolled":
 		s.Mutate(simkube.KeyOf(as[0]), func(u *unstructured.Unstructured) { u.SetOwnerReferences(nil) })
+	case "a-client-side-managed":
+		// The resource was last written by the patch-and-transform composer
+		// (client-side apply) before the Composition moved to a pipeline: its
+		// managed fields are still to be upgraded, which is a write.
+		s.Mutate(simkube.KeyOf(as[0]), func(u *unstructured.Unstructured) {
+			now := metav1.Now()
+			u.SetManagedFields([]metav1.ManagedFieldsEntry{{Manager: "crossplane", Operation: metav1.ManagedFieldsOperationUpdate, APIVersion: u.GetAPIVersion(), Time: &now, FieldsType: "FieldsV1", FieldsV1: &metav1.FieldsV1{Raw: []byte(`{"f:spec":{"f:param":{},"f:for":{}}}`)}}})
+		})
 	}
 	prepared[state] = s.Clone()
 	return s
